@@ -1,10 +1,14 @@
 #!/bin/bash
 # tools/run_mutant.sh <patch> <ID> [<ID2>...]  — apply a seeded patch to /repo, run the quick checks, undo it.
+# The evidence files and regenerated Lean tables of the unchanged tree are saved and restored (a mutant run rewrites them).
 patch=$1; shift
 cd /repo && git apply --check "$patch" || { echo "PATCH DOES NOT APPLY"; exit 2; }
 git apply "$patch"
+bak=$(mktemp -d /var/tmp/runmut.XXXX)
+cp -a /verif/evidence "$bak/evidence"; cp -a /verif/lean/SwayVerif/Generated "$bak/Generated"
 for id in "$@"; do
   echo "=== $id with $(basename $(dirname $patch))"
   (cd /verif && ./check $id --tier quick 2>&1 | grep -E "VIOLATION|KNOWN-FINDING|done rc=|FAILED" | cut -c1-300)
 done
 cd /repo && git apply -R "$patch" && echo "reverted"
+rm -rf /verif/evidence /verif/lean/SwayVerif/Generated; cp -a "$bak/evidence" /verif/evidence; cp -a "$bak/Generated" /verif/lean/SwayVerif/Generated; rm -rf "$bak"
